@@ -35,7 +35,8 @@ LEVEL_TEXT = ("C16_balanced, C16_chronological, C16_complete, C16_open_before_us
               "or doubled -- the values posted to every asset/liability account add up to Sum_c quantity(a,c) * price(c) on the "
               "journal's last day within ValuationSpec.step_bound * 10^-8, and the clause mtm_check of the executable verdict "
               "finds nothing on the model's ledger; per commodity C16_position_mark_to_market, "
-              "C16_valuation_commodity_at_quantity, C16_unbooked_commodity_not_posted; "
+              "C16_valuation_commodity_at_quantity, C16_unbooked_commodity_not_posted; C16_adjusted_account_open: every posting on "
+              "an asset/liability account, value adjustments included, has an open directive in force and no earlier close; "
               "C16_valuation_open_refuted: the clause 'every posted account has an open directive' is FALSE for the accounts "
               "Valuate posts value adjustments to (Income:...; Transcode tests the stale prefix Equity:Valuation:) -- known "
               "finding F16, pinned by testdata/transcode/example.golden.")
@@ -44,8 +45,8 @@ LEVEL_NOTE = ("Trusted: kernel, extraction, harness; the model-to-code tie is sa
               "Side conditions of the mark-to-market theorems: account names as the parser guarantees them (postings_syntactic) and "
               "no directive dated before 0001-01-01 (dates_nonneg: mtm_check counts the truncation steps inside [day 0, last day]; "
               "a journal with dates in the year 0000 gets a smaller allowance than the theorem needs). "
-              "That the A/L account of a value adjustment is still open is not proved (needs the coupling of Check's and "
-              "Valuate's quantities); the spec on the binary's output checks it on every case.")
+              "That the A/L account of a value adjustment is still open is proved (C16_adjusted_account_open: coupling of Check's "
+              "and Valuate's quantities); for its Income:... account the clause is false (F16).")
 
 
 def plan(tier, seed):
